@@ -129,7 +129,7 @@ PROPS["C02"] = {
     "theorems": ["Session.windows_in_sync", "Session.inSync_step", "Session.hist_is_compressed_payloads", "Session.send_dict_suffix",
                  "Spec.Inflate.bounded_window_suffices", "Spec.Inflate.history_prefix_irrelevant", "Spec.Inflate.history_extension_harmless",
                  "Spec.Inflate.window_determines_output", "Spec.Inflate.bounded_window_iff"],
-    "suites": ["sess:1", "sess:0", "sess:multi", "win", "write:s on", "write:c on"],
+    "suites": ["sess:1", "sess:0", "sess:multi", "win", "write:s on", "write:c on", "read:c 1", "read:s 1"],
     "trusted": ["klauspost/compress/flate: the compressor emits RFC 1951 whose back-references stay within its window and dictionary (Codec law L2), the inflater implements RFC 1951 (L3) - SAMPLED, not proved: every compressed frame in the read/sess/write suites goes through the real library and (read, write) through the Lean inflater",
                 "which frames are compressed and which window update follows which write: Session model, tied by the sess suite (all four windows read back through the accessor hook at quiescence)"],
     "clauses_without_theorem": ["the DEFLATE library's own conformance (L2/L3): sampled by the suites, not proved"],
@@ -304,6 +304,15 @@ def _rel_c20(v):
     return strip(v["impl"]) != strip(v["model"])
 
 
-RELEVANT = {"C20": _rel_c20, "C04": _rel_c04, "C13": _rel_c13, "C16": _rel_c16, "C06": _rel_c06, "C07": _rel_c07, "C08": _rel_c08}
+def _rel_c02(v):
+    # compressed cases of the read suite: C02 is about inflating what a conforming sender produces — a difference in the
+    # delivered messages or an inflation failure (1011) on one side only; other differences belong to C03/C13
+    if v.get("suite") != "read":
+        return True
+    msgs = lambda o: _re.findall(r"msg:\d+:[0-9a-f-]+", o)
+    return msgs(v["impl"]) != msgs(v["model"]) or ("1011" in v["impl"]) != ("1011" in v["model"])
+
+
+RELEVANT = {"C02": _rel_c02, "C20": _rel_c20, "C04": _rel_c04, "C13": _rel_c13, "C16": _rel_c16, "C06": _rel_c06, "C07": _rel_c07, "C08": _rel_c08}
 
 EXTRA = {}
